@@ -767,6 +767,40 @@ func specLastOptStr(opts []Option, kind int, i int, def string) string {
 	return specLastOptStr(opts, kind, i-1, def)
 }
 
+// specLastOptStrs: the string-list attribute of the last option of the given kind among the first i, def if there is none
+//@ spec gtree.specLastOptStrs
+//@   fuel 7
+//@   decreases i
+func specLastOptStrs(opts []Option, kind int, i int, def []string) []string {
+	if i <= 0 || i > len(opts) {
+		return def
+	}
+	if opts[i-1] != nil && optKind(opts[i-1]) == kind {
+		return optStrs(opts[i-1])
+	}
+	return specLastOptStrs(opts, kind, i-1, def)
+}
+
+// specLastEncode: the encoding selected by the last encoding option among the first i (encodeDefault if there is none)
+//@ spec gtree.specLastEncode
+//@   fuel 7
+//@   decreases i
+func specLastEncode(opts []Option, i int) encode {
+	if i <= 0 || i > len(opts) {
+		return encodeDefault
+	}
+	if opts[i-1] != nil && optKind(opts[i-1]) == optKJSON {
+		return encodeJSON
+	}
+	if opts[i-1] != nil && optKind(opts[i-1]) == optKYAML {
+		return encodeYAML
+	}
+	if opts[i-1] != nil && optKind(opts[i-1]) == optKTOML {
+		return encodeTOML
+	}
+	return specLastEncode(opts, i-1)
+}
+
 // appending an option does not change what the options before it amount to (induction on i)
 //@ lemma gtree.lemmaHasOptPrefix
 //@   nowf
@@ -789,6 +823,30 @@ func lemmaHasOptPrefix(opts []Option, o Option, kind int, i int) {
 func lemmaLastOptStrPrefix(opts []Option, o Option, kind int, i int, def string) {
 	if i > 0 {
 		lemmaLastOptStrPrefix(opts, o, kind, i-1, def)
+	}
+}
+
+//@ lemma gtree.lemmaLastOptStrsPrefix
+//@   nowf
+//@   requires rng: 0 <= i && i <= len(opts)
+//@   ensures eq: specLastOptStrs(push(opts, o), kind, i, def) == specLastOptStrs(opts, kind, i, def)
+//@   trigger specLastOptStrs(push(opts, o), kind, i, def)
+//@   decreases i
+func lemmaLastOptStrsPrefix(opts []Option, o Option, kind int, i int, def []string) {
+	if i > 0 {
+		lemmaLastOptStrsPrefix(opts, o, kind, i-1, def)
+	}
+}
+
+//@ lemma gtree.lemmaLastEncodePrefix
+//@   nowf
+//@   requires rng: 0 <= i && i <= len(opts)
+//@   ensures eq: specLastEncode(push(opts, o), i) == specLastEncode(opts, i)
+//@   trigger specLastEncode(push(opts, o), i)
+//@   decreases i
+func lemmaLastEncodePrefix(opts []Option, o Option, i int) {
+	if i > 0 {
+		lemmaLastEncodePrefix(opts, o, i-1)
 	}
 }
 
@@ -872,10 +930,10 @@ func lemmaLastOptStrPrefix(opts []Option, o Option, kind int, i int, def string)
 //@   ghostset lastConfig := result
 //@   ensures cfg [C12]: fresh(result) && (result.massive ==> result.ctx != nil)
 //@   ensures defaults [C01,C06]: len(options) == 0 ==> !result.massive && result.encode == encodeDefault && !result.dryrun && result.targetDir == "." && !result.strictVerify && !result.noUseIterOfSimpleOutput && len(result.fileExtensions) == 0
-//@   ensures wired [C16]: result.strictVerify == specHasOpt(options, optKStrict, len(options)) && result.dryrun == specHasOpt(options, optKDry, len(options)) && result.massive == specHasOpt(options, optKMassive, len(options)) && result.targetDir == specLastOptStr(options, optKTarget, len(options), ".")
+//@   ensures wired [C16]: result.strictVerify == specHasOpt(options, optKStrict, len(options)) && result.dryrun == specHasOpt(options, optKDry, len(options)) && result.massive == specHasOpt(options, optKMassive, len(options)) && result.targetDir == specLastOptStr(options, optKTarget, len(options), ".") && result.fileExtensions == specLastOptStrs(options, optKExt, len(options), nil) && result.encode == specLastEncode(options, len(options))
 //@ loop gtree.newConfig#1
 //@   invariant ok: configOK(c) && fresh(c)
-//@   invariant wired: c.strictVerify == specHasOpt(options, optKStrict, $i) && c.dryrun == specHasOpt(options, optKDry, $i) && c.massive == specHasOpt(options, optKMassive, $i) && c.targetDir == specLastOptStr(options, optKTarget, $i, ".")
+//@   invariant wired: c.strictVerify == specHasOpt(options, optKStrict, $i) && c.dryrun == specHasOpt(options, optKDry, $i) && c.massive == specHasOpt(options, optKMassive, $i) && c.targetDir == specLastOptStr(options, optKTarget, $i, ".") && c.fileExtensions == specLastOptStrs(options, optKExt, $i, nil) && c.encode == specLastEncode(options, $i)
 
 //@ func gtree.initializeTree
 //@   requires nn: cfg != nil && (cfg.massive ==> cfg.ctx != nil)
@@ -1058,7 +1116,7 @@ func lemmaRawAllIsRenderAll(last, mid branchFormat, roots []*Node, i int) {
 //@   ghostset libCalls := old(libCalls) + 1
 //@   ensures render [C01,C03,C12,C14,C17]: fresh(lastConfig) && (!lastConfig.massive && lastConfig.encode == encodeDefault && !lastConfig.dryrun && result == nil ==> (old(wfail) || !wfail) && (lastConfig.noUseIterOfSimpleOutput ==> (allRoots(lastForest) && out[w] == old(out[w]) ++ specRenderAll(lastConfig.lastNodeFormat, lastConfig.intermedialNodeFormat, lastForest, len(lastForest)))) && (!lastConfig.noUseIterOfSimpleOutput ==> out[w] == old(out[w]) ++ spText && spRoots == rsRoots && !rsFailed))
 //@   ensures dryfs [C09]: fsOps == old(fsOps) && fsFailed == old(fsFailed)
-//@   ensures wired [C16]: lastConfig.strictVerify == specHasOpt(options, optKStrict, len(options)) && lastConfig.dryrun == specHasOpt(options, optKDry, len(options)) && lastConfig.massive == specHasOpt(options, optKMassive, len(options)) && lastConfig.targetDir == specLastOptStr(options, optKTarget, len(options), ".")
+//@   ensures wired [C16]: lastConfig.strictVerify == specHasOpt(options, optKStrict, len(options)) && lastConfig.dryrun == specHasOpt(options, optKDry, len(options)) && lastConfig.massive == specHasOpt(options, optKMassive, len(options)) && lastConfig.targetDir == specLastOptStr(options, optKTarget, len(options), ".") && lastConfig.fileExtensions == specLastOptStrs(options, optKExt, len(options), nil) && lastConfig.encode == specLastEncode(options, len(options))
 //@ applies fromMarkdownOutput to gtree.OutputFromMarkdown, gtree.Output
 
 //@ contract fromMarkdownWalk
@@ -1393,7 +1451,7 @@ func fsExistsAt(p string) bool { _, err := os.Stat(p); return !os.IsNotExist(err
 //@   ghostset libCalls := old(libCalls) + 1
 //@   ensures mkdir [C06,C12]: fresh(lastConfig) && (!lastConfig.massive && lastConfig.encode == encodeDefault && result == nil ==> fsFailed == old(fsFailed) && (allRoots(lastForest) && !specAnyRootExists((len(lastConfig.targetDir) != 0 ? lastConfig.targetDir : "."), lastForest, 0) && fsOps == old(fsOps) ++ specMkOpsAll((len(lastConfig.targetDir) != 0 ? lastConfig.targetDir : "."), lastConfig.fileExtensions, lastForest, len(lastForest))))
 //@   ensures validated [C07,C12]: fresh(lastConfig) && (!lastConfig.massive && lastConfig.encode == encodeDefault && fsOps != old(fsOps) ==> ((forall k int :: {lastForest[k]} 0 <= k && k < len(lastForest) ==> validated(lastForest[k]))))
-//@   ensures wired [C16]: lastConfig.strictVerify == specHasOpt(options, optKStrict, len(options)) && lastConfig.dryrun == specHasOpt(options, optKDry, len(options)) && lastConfig.massive == specHasOpt(options, optKMassive, len(options)) && lastConfig.targetDir == specLastOptStr(options, optKTarget, len(options), ".")
+//@   ensures wired [C16]: lastConfig.strictVerify == specHasOpt(options, optKStrict, len(options)) && lastConfig.dryrun == specHasOpt(options, optKDry, len(options)) && lastConfig.massive == specHasOpt(options, optKMassive, len(options)) && lastConfig.targetDir == specLastOptStr(options, optKTarget, len(options), ".") && lastConfig.fileExtensions == specLastOptStrs(options, optKExt, len(options), nil) && lastConfig.encode == specLastEncode(options, len(options))
 //@ applies fromMarkdownMkdir to gtree.MkdirFromMarkdown, gtree.Mkdir
 
 //@ contract fromRootMkdir
@@ -1539,7 +1597,7 @@ func lemmaInBeforeContains(ks []string, x string, i int) {
 //@   ghostset libFailed := old(libFailed) || result != nil
 //@   ghostset libCalls := old(libCalls) + 1
 //@   ensures fsframe [C08,C12]: fsOps == old(fsOps) && fsFailed == old(fsFailed)
-//@   ensures wired [C16]: lastConfig.strictVerify == specHasOpt(options, optKStrict, len(options)) && lastConfig.dryrun == specHasOpt(options, optKDry, len(options)) && lastConfig.massive == specHasOpt(options, optKMassive, len(options)) && lastConfig.targetDir == specLastOptStr(options, optKTarget, len(options), ".")
+//@   ensures wired [C16]: lastConfig.strictVerify == specHasOpt(options, optKStrict, len(options)) && lastConfig.dryrun == specHasOpt(options, optKDry, len(options)) && lastConfig.massive == specHasOpt(options, optKMassive, len(options)) && lastConfig.targetDir == specLastOptStr(options, optKTarget, len(options), ".") && lastConfig.fileExtensions == specLastOptStrs(options, optKExt, len(options), nil) && lastConfig.encode == specLastEncode(options, len(options))
 //@ applies fromMarkdownVerify to gtree.VerifyFromMarkdown, gtree.Verify
 
 //@ contract fromRootVerify
